@@ -1,6 +1,6 @@
 (** C09 — the trace stream is one total order, the same for all subscribers.
     Model: Model/Tracer.v (the broadcaster's request loop with swap-remove unsubscription). *)
-From BV Require Import Model.Tracer Proofs.TracerProofs Model.TracerFlow Proofs.TracerFlowProofs Gen.Facts.
+From BV Require Import Model.Tracer Proofs.TracerProofs Model.TracerFlow Proofs.TracerFlowProofs Model.TracerEnd Proofs.TracerEndProofs Gen.Facts.
 
 (* For EVERY history of subscribe / unsubscribe / trace requests (any number of subscribers
    joining and leaving at any time), every subscriber's log is exactly the sequence of traces
@@ -61,6 +61,44 @@ Theorem C09_deadlock_refuted_with_a_subscriber_that_stopped_reading :
     busy s /\ forall l, internal_f l = true -> fstep true 1 s l = None \/ exists i, l = FPop i /\ i = 0.
 Proof. exact refuted_with_a_stopped_subscriber. Qed.
 Print Assumptions C09_deadlock_refuted_with_a_subscriber_that_stopped_reading.
+
+(* UNTIL THE LAST SENDER IS DONE (Model/TracerEnd.v). Cancelling the tracer's context does not end the delivery: for
+   every history of requests, cancellation and senders finishing, with any subscribers unready at any push, every
+   subscriber's log is the sequence of traces taken while it was subscribed, up to the moment the context is cancelled
+   AND the last registered sender is done. Stated for the push the sources show (src_push_waits_for_the_subscriber,
+   read off tracer.run: a plain send the broadcaster waits in). *)
+Theorem C09_delivery_goes_on_until_the_last_sender_is_done : forall n cs s,
+  wf_from [] (live n false cs) = true ->
+  log_of s (logs (core (erun (mode_of src_push_waits_for_the_subscriber) n cs))) = spec_log s false (live n false cs).
+Proof. exact delivery_until_the_last_sender. Qed.
+Print Assumptions C09_delivery_goes_on_until_the_last_sender_is_done.
+
+(* a push that is abandoned once the context is cancelled: the slow subscriber 1 loses trace 8, the prompt one has it *)
+Theorem C09_delivery_refuted_when_the_push_gives_up_on_cancellation :
+  let cs := [ESub 0; ESub 1; ETr 7 [1]; ECancel; ETr 8 [1]; EDone] in
+  wf_from [] (live 1 false cs) = true /\
+  log_of 0 (logs (core (erun GivesUpOnCancel 1 cs))) = [7; 8] /\
+  log_of 1 (logs (core (erun GivesUpOnCancel 1 cs))) = [7] /\
+  spec_log 1 false (live 1 false cs) = [7; 8].
+Proof. exact refuted_giving_up_on_cancel. Qed.
+Print Assumptions C09_delivery_refuted_when_the_push_gives_up_on_cancellation.
+
+(* a push that skips a subscriber whose buffer is full *)
+Theorem C09_delivery_refuted_when_the_push_drops_for_an_unready_subscriber :
+  let cs := [ESub 0; ESub 1; ETr 7 [1]; ETr 8 []] in
+  wf_from [] (live 1 false cs) = true /\
+  log_of 0 (logs (core (erun DropsWhenFull 1 cs))) = [7; 8] /\
+  log_of 1 (logs (core (erun DropsWhenFull 1 cs))) = [8] /\
+  spec_log 1 false (live 1 false cs) = [7; 8].
+Proof. exact refuted_dropping_when_full. Qed.
+Print Assumptions C09_delivery_refuted_when_the_push_drops_for_an_unready_subscriber.
+
+Example C09_end_nonvacuous :
+  let cs := [ESub 0; ETr 7 []; ECancel; ESub 1; ETr 8 [0; 1]; EDone; ETr 9 [1]; EUnsub 0; ETr 10 []; EDone; ETr 11 []; ESub 2] in
+  let st := erun Waits 2 cs in
+  wf_from [] (live 2 false cs) = true /\ ended st = true /\
+  log_of 0 (logs (core st)) = [7; 8; 9] /\ log_of 1 (logs (core st)) = [8; 9; 10] /\ log_of 2 (logs (core st)) = [].
+Proof. vm_compute. repeat split. Qed.
 
 Example C09_flow_nonvacuous :
   exists s, fexec true 2 (finit 2) [FSendReq; FSendReq; FTake; FDeliver; FStartUnsub 1; FDeliver; FPop 1; FOffer 1; FAck 1; FTake; FDeliver; FPop 0; FPop 0] = Some s /\
